@@ -150,6 +150,8 @@ type host struct {
 	done      bool
 	crashed   bool
 	maxRound  uint64    // highest round reported while running instance 0
+	lastProg  gpbft.InstanceProgress
+	lastMove  time.Time // virtual time of the last change of (instance, round, phase)
 	clk       time.Time // own clock, scripted mode only (participants never share a clock in reality either)
 }
 
@@ -431,6 +433,9 @@ func (w *world) after(id int, ev *jEvent, err error) {
 	pr := w.parts[id].Progress()
 	if pr.ID == 0 && pr.Round > h.maxRound {
 		h.maxRound = pr.Round
+	}
+	if pr != h.lastProg || h.lastMove.IsZero() {
+		h.lastProg, h.lastMove = pr, w.now
 	}
 	ev.T = w.ms()
 	ev.Phase = pr.Phase.String()
@@ -901,6 +906,15 @@ func (w *world) start() {
 		}
 		if w.sc.Late == id && w.sc.GST > 0 {
 			when = w.t0.Add(w.sc.GST + 40*time.Second)
+			if len(w.sc.Byz) > 0 {
+				// a validly signed QUALITY vote of a faulty member for a chain with a foreign base waits in the late starter's queue
+				// (first in drain order); the instance must drop it and still absorb everything behind it
+				fb := w.chainOf([]int{7000, 7500})
+				if m := w.byzMessage(w.sc.Byz[0], 0, gpbft.QUALITY_PHASE, 0, fb, -1); m != nil {
+					w.seq++
+					heap.Push(&w.q, &qev{at: w.t0.Add(50 * time.Millisecond), seq: w.seq, dest: id, msg: m, byz: true})
+				}
+			}
 		}
 		if err := w.parts[id].StartInstanceAt(0, when); err != nil {
 			panic(err)
@@ -1065,6 +1079,35 @@ func (w *world) checkCrash() {
 	}
 }
 
+// stalled: under a timely network (after stabilisation) some started, live, undecided honest participant has not changed its
+// (instance, round, phase) for 150 times the length of a whole round of its current round number (4 phases of 2*delta*backoff^round).
+// The run is cut there; TLC judges it (C06). Runs without stabilisation are never cut this way.
+func (w *world) stalled() bool {
+	if w.sc.GST == 0 || !w.gstPassed {
+		return false
+	}
+	for _, id := range w.honest {
+		h := w.hosts[id]
+		if h.done || h.crashed || !h.started[0] || h.lastMove.IsZero() {
+			continue
+		}
+		round := float64(w.parts[id].Progress().Round)
+		roundLen := time.Duration(float64(8*time.Second) * pow13(round))
+		if w.now.Sub(h.lastMove) > 150*roundLen {
+			return true
+		}
+	}
+	return false
+}
+
+func pow13(r float64) float64 {
+	x := 1.0
+	for i := 0; i < int(r); i++ {
+		x *= 1.3
+	}
+	return x
+}
+
 func (w *world) end(reason string) {
 	type pend struct {
 		N        int    `json:"n"`
@@ -1104,6 +1147,10 @@ func (w *world) run() {
 		}
 		if over {
 			reason = "maxround"
+			break
+		}
+		if w.stalled() {
+			reason = "stalled"
 			break
 		}
 		if !w.step() {
